@@ -357,10 +357,12 @@ def repo_tests_phase(chk, pid, mine, test_paths, timeout=1500, batch=300):
                             nbad += chk.violation("compile", "repository test %s: object %d does not compile: %s" % (r["test"], s, fin["err"]),
                                                   script={"test": r["test"]}, sig={"clause": "compile"})
                     continue
+                vals = fin.get("values", r["values"])
+                vals = vals + r["values"][len(vals):]
                 try:
-                    S = ev.sem(tc, sym=r["values"], blocks=r["blocks"])
+                    S = ev.sem(tc, sym=vals, blocks=r["blocks"])
                 except Exception:  # noqa: BLE001
-                    continue            # e.g. a parameter value outside its component's range at the end of the test
+                    continue            # e.g. a parameter value outside its component's range at that moment
                 if not np.all(np.isfinite(S)):
                     continue
                 c = ad.conforms(_Shim(fin), tc, S)
